@@ -1136,8 +1136,11 @@ def check_custom_error_passthrough(rep, g):
 
 def shared_ref_of_self0(ex, t, allow_deref_call=True):
     """t is a shared view of self.0 (possibly through String->str deref / unsizing)"""
-    if t[0] != 'ref' or t[1]:
+    if t[0] == 'ref' and t[1]:
         return False
+    if t[0] != 'ref' and not (is_deref_call(ex, t) or is_unsize(t) or
+                              (t[0] == 'call' and cpath(ex, t) in ('alloc::string::String::as_str', 'std::string::String::as_str'))):
+        return False   # a shared reference: `&..` itself, or what a shared-view call / unsizing of one returns
     return strip_view(ex, t) == SELF0
 
 
@@ -1239,7 +1242,7 @@ def check_views(rep, g):
         # peel the call chain: each step a call whose single argument is the previous
         t = ret
         chain = []
-        while ok and t[0] == 'call' and len(t[2]) == 1:
+        while ok and t[0] == 'call' and len(t[2]) == 1 and not is_deref_call(ex, t):
             chain.append(cname(ex, t))
             t = t[2][0]
         ok = ok and strip_view(ex, t) == SELF0 and all(n in ('into_iter', 'iter') for n in chain)
